@@ -11,7 +11,7 @@ def make_specs(res, mix, nquick, nthorough):
     for i in range(n):
         prof, kw = mix[i % len(mix)]
         rng = vlib.rng_for(res.seed, f"{res.pid}/{prof}/{i}")
-        ops = getattr(gen, "gen_" + prof)(rng, **kw)
+        ops = [o for o in getattr(gen, "gen_" + prof)(rng, **kw) if "@DUMP" not in o]    # profiles shared with C14/C17 carry their own dump points
         specs.append((ops, hist.dostype_of(ops), hist.nblocks_of(ops)))
     return specs
 
